@@ -142,6 +142,10 @@ func genNode14(rng *Rng, depth int, wantMap bool) *gnode {
 		g := &gnode{kind: 2}
 		elemMap := rng.Chance(70)
 		for i := 0; i < n; i++ {
+			if elemMap && rng.Chance(12) { // a stray scalar / null among keyed elements
+				g.vals = append(g.vals, &gnode{kind: 0, text: rng.Pick(c14Scalars)})
+				continue
+			}
 			if elemMap {
 				e := genNode14(rng, depth-1, true)
 				if rng.Chance(70) { // keyed element
@@ -178,6 +182,70 @@ func genPath14(rng *Rng, maxLen int) []string {
 			p = append(p, rng.Pick(c14OddParts))
 		} else {
 			p = append(p, rng.Pick(c14Parts))
+		}
+	}
+	return p
+}
+
+// genPathGuided14 follows the generated document most of the time (existing keys, indices in range, selectors
+// that match an element) and leaves it with a random part now and then, so that deep branches are reached.
+func genPathGuided14(rng *Rng, root *gnode, maxLen int) []string {
+	n := rng.Intn(maxLen + 1)
+	p := []string{}
+	cur := root
+	for i := 0; i < n; i++ {
+		if cur == nil || rng.Chance(22) {
+			if rng.Chance(15) {
+				p = append(p, rng.Pick(c14OddParts))
+			} else {
+				p = append(p, rng.Pick(c14Parts))
+			}
+			cur = nil
+			continue
+		}
+		switch cur.kind {
+		case 1:
+			if len(cur.keys) == 0 {
+				p = append(p, rng.Pick(c14Keys))
+				cur = nil
+				continue
+			}
+			j := rng.Intn(len(cur.keys))
+			p = append(p, cur.keys[j])
+			cur = cur.vals[j]
+		case 2:
+			if len(cur.vals) == 0 {
+				p = append(p, rng.Pick([]string{"0", "-", "[name=x]", "[=x]"}))
+				cur = nil
+				continue
+			}
+			j := rng.Intn(len(cur.vals))
+			e := cur.vals[j]
+			switch k := rng.Intn(4); {
+			case k == 0:
+				p = append(p, fmt.Sprint(j))
+			case k == 1:
+				p = append(p, "-")
+				e = cur.vals[len(cur.vals)-1]
+			case e.kind == 1 && len(e.keys) > 0:
+				kj := rng.Intn(len(e.keys))
+				if e.vals[kj].kind == 0 {
+					p = append(p, "["+e.keys[kj]+"="+strings.Trim(e.vals[kj].text, `"`)+"]")
+				} else {
+					p = append(p, "["+e.keys[kj]+"=]")
+				}
+				// the selector returns the FIRST matching element, which may be an earlier one
+				e = nil
+			case e.kind == 0:
+				p = append(p, "[="+strings.Trim(e.text, `"`)+"]")
+				e = nil
+			default:
+				p = append(p, fmt.Sprint(j))
+			}
+			cur = e
+		default:
+			p = append(p, rng.Pick(c14Parts))
+			cur = nil
 		}
 	}
 	return p
@@ -595,6 +663,44 @@ func eqNode14(a, b *kyaml.Node, styles bool) bool {
 	return false
 }
 
+// wellFormed14: the tree is one the model's node type can represent (what coqNode accepts), no allocation
+func wellFormed14(n *kyaml.Node) bool {
+	if n == nil {
+		return false
+	}
+	switch n.Kind {
+	case kyaml.DocumentNode:
+		return len(n.Content) == 1 && wellFormed14(n.Content[0])
+	case kyaml.MappingNode:
+		if len(n.Content)%2 != 0 {
+			return false
+		}
+		for i := 0; i < len(n.Content); i += 2 {
+			if n.Content[i].Kind != kyaml.ScalarNode || !wellFormed14(n.Content[i+1]) {
+				return false
+			}
+		}
+		return true
+	case kyaml.SequenceNode:
+		for _, c := range n.Content {
+			if !wellFormed14(c) {
+				return false
+			}
+		}
+		return true
+	case kyaml.ScalarNode:
+		return true
+	}
+	return n.Kind == 0 && n.Tag == "" && len(n.Content) == 0
+}
+
+func checkWellFormed14(s sink, c case14, cls string, doc *kyaml.RNode) {
+	if cls == ClsOk && doc != nil && !wellFormed14(doc.YNode()) {
+		s.Violation(OracleViolation{Law: "well_formed_result", Class: "C14/malformed-result",
+			Detail: "the operation returned without error but left a malformed node tree (odd mapping Content / alias / non-scalar key)", Replay: c})
+	}
+}
+
 func eqR14(a, b *kyaml.RNode) bool {
 	if a == nil || a.YNode() == nil || b == nil || b.YNode() == nil {
 		return (a == nil || a.YNode() == nil) == (b == nil || b.YNode() == nil)
@@ -721,6 +827,7 @@ func laws14doc(s sink, c case14, d *docCtx14, probes []probe14) (cls string, got
 			reportPanic14(s, c, msg2)
 			return cls2, false
 		}
+		checkWellFormed14(s, c, cls2, doc2)
 		if clsL == ClsOk && foundL == nil {
 			if cls2 != ClsOk || !eqR14(doc2, d.ref) {
 				report("absent_clear_noop", fmt.Sprintf("Clear of an absent path (class %s) changed the document: %s -> %s", cls2, docString(d.ref), docString(doc2)))
@@ -734,6 +841,7 @@ func laws14doc(s sink, c case14, d *docCtx14, probes []probe14) (cls string, got
 			reportPanic14(s, c, msg)
 			return cls, false
 		}
+		checkWellFormed14(s, c, cls, doc)
 		if c.Op == "putscalar" && c.Value != nil && cls == ClsOk && found != nil {
 			lawsPutScalar14(s, c, d, doc)
 		}
@@ -773,6 +881,7 @@ func lawsPut14(s sink, c case14, d *docCtx14, probes []probe14) (string, bool) {
 		reportPanic14(s, c, msg)
 		return cls, false
 	}
+	checkWellFormed14(s, c, cls, doc1)
 
 	// ---- C14_get_put: lookup (ps ++ [name]) n = Ok (Some w), w non-null  =>  putting w back changes nothing
 	if clsL, w, _ := lookupOn(d.orig, full); clsL == ClsOk && w != nil && !kyaml.IsMissingOrNull(w) {
@@ -860,24 +969,6 @@ func lawsPut14(s sink, c case14, d *docCtx14, probes []probe14) (string, bool) {
 		}
 	}
 	return cls, true
-}
-
-// unstyled14 prints a node with every scalar style erased (unstyle of FnsSpec.v).
-func unstyled14(n *kyaml.Node) string {
-	c := kyaml.CopyYNode(n)
-	var rec func(y *kyaml.Node)
-	rec = func(y *kyaml.Node) {
-		if y == nil {
-			return
-		}
-		y.Style = 0
-		for _, ch := range y.Content {
-			rec(ch)
-		}
-	}
-	rec(c)
-	s, _ := coqNode(c)
-	return s
 }
 
 func caseTerm14(c case14, cls string, doc, found *kyaml.RNode) (string, bool) {
@@ -990,8 +1081,13 @@ func runC14(r *Run, rng *Rng, tier string) error {
 	ops := []string{"lookup", "lookupcreate", "put", "put", "putnc", "clear", "putscalar", "lookup"}
 	kinds := []string{"KScalar", "KMap", "KSeq"}
 	gen := func(g *Rng) case14 {
-		doc := genNode14(g, 3, true).yaml()
-		c := case14{Op: g.Pick(ops), Doc: doc, Path: genPath14(g, 4)}
+		root := genNode14(g, 3, true)
+		doc := root.yaml()
+		path := genPath14(g, 4)
+		if g.Chance(60) {
+			path = genPathGuided14(g, root, 4)
+		}
+		c := case14{Op: g.Pick(ops), Doc: doc, Path: path}
 		switch c.Op {
 		case "lookupcreate":
 			c.Kind = g.Pick(kinds)
